@@ -18,7 +18,7 @@
 //!                        before: at most once);
 //!  * `wrong-connection`— it was delivered on a connection other than the one that was active
 //!                        for the destination when the relay read the frame;
-//!  * `reordered`       — datagrams of one sender id to one connection overtook each other;
+//!  * `reordered`       — datagrams of one sending connection to one connection overtook each other;
 //!  * `wrong-endpoint`  — the receiving connection belongs to another endpoint id.
 #[path = "../relayreg.rs"]
 mod relayreg;
@@ -254,6 +254,9 @@ impl Prop for C04 {
 }
 
 struct Rec {
+    /// the sending connection (order is kept per sending connection: two connections of one
+    /// endpoint id are read by two independent actors)
+    sender: usize,
     src: usize,
     dst: usize,
     ecn: u8,
@@ -316,6 +319,7 @@ fn oracle(_script: &Script, tr: &Trace, ex: &mut Exec) {
                     // what a receiver is entitled to see: ECN reduced to its two bits, segment
                     // size only for batch frames (0 = a single datagram)
                     let rec = Rec {
+                        sender: *c,
                         src: tr.owner[*c],
                         dst: *dst,
                         ecn: ecn & 3,
@@ -367,10 +371,10 @@ fn oracle(_script: &Script, tr: &Trace, ex: &mut Exec) {
                         {
                             displaced_delivery = true;
                         }
-                        let src_of = recs[h].src;
-                        // anything older from the same sender id for this connection can no longer arrive
+                        let sender_of = recs[h].sender;
+                        // anything older from the same sending connection for this connection can no longer arrive
                         for x in recs[..h].iter_mut() {
-                            if !x.consumed && x.target == Some(*r) && x.src == src_of {
+                            if !x.consumed && x.target == Some(*r) && x.sender == sender_of {
                                 x.skipped = true;
                             }
                         }
